@@ -44,7 +44,16 @@ def check(m, run):
         rq1(m, run, ev('CurveEvaluatorRational'), 1)
         rq1(m, run, ev('SurfaceEvaluatorRational'), 2)
         a34(m, run, ev('CurveEvaluator2'), ev('SurfaceEvaluator2'))
-    tn1(m, run)
+    # tangents and normals are decided against a recording derivative table (TN3); the rules that read which cells are picked and how the
+    # normalisation is spelt, and that the list variants call the single ones, corroborate
+    n_tn = len(run.obs)
+    try:
+        _sd.tn3(m, run)
+    except AnalysisError as ex:
+        run.error(str(ex))
+    tn_ok = len(run.obs) > n_tn and all(o.ok for o in run.obs[n_tn:])
+    with run.corroborating(tn_ok, 'TN3', rules=('TN1.tangent-normal',), only=lambda o: o.rule in ('TN1.tangent-normal', 'TN2.list-variant-maps-single')):
+        tn1(m, run)
     n2 = len(run.obs)
     _sd.pk3(m, run)
     pk_ok = all(o.ok for o in run.obs[n2:])
@@ -72,7 +81,8 @@ def check(m, run):
         run.ob('FD1.no-floored-factor', 'linalg.binomial_coefficient :: ' + key, False, 'a running product is multiplied by a floor-divided factor: floor(a/b)*c is not floor(a*c/b)', site(m.func('linalg.binomial_coefficient'), node))
     run.floor('AX6.table-order', 3, 'SKL writes in the two surface derivative evaluators')
     run.floor('RQ1.quotient-rule', 8, 'A4.2 (1 term) + A4.4 (3 terms) index sums and binomials')
-    tn2(m, run)
+    with run.corroborating(tn_ok, 'TN3', rules=('TN2.list-variant-maps-single',)):
+        tn2(m, run)
     run.floor('TN1.tangent-normal', 5, 'tangent u/v, normal operands, normalisation')
     run.floor('LY1.canonical-stride', 2, 'SurfaceEvaluator.derivatives and surface_deriv_cpts')
 
